@@ -12,12 +12,15 @@ letter items (upper-cased letters). -/
 structure Cmd (α : Type) where
   text : Text
   words : List (Char × Option α)
+  /-- the `gcode` argument the command was passed with (upper-cased); not used by the filter model
+  itself — the reference printer of the specifications needs it to execute forwarded commands -/
+  code : String := ""
   deriving Repr
 
 /-- Commands returned to the printer queue. -/
 inductive Out (α : Type) where
   | orig (c : Cmd α)                        -- a command passed through verbatim
-  | script (t : Text)                       -- a configured enter/exit script line
+  | script (isExit : Bool) (t : Text)       -- a configured enter (false) / exit (true) script line
   | g92e (e : α)                            -- "G92 E{e}"
   | g0z (f z : α)                           -- "G0 F{f} Z{z}"
   | g0xy (f x y : α)                        -- "G0 F{f} X{x} Y{y}"
@@ -250,7 +253,7 @@ def FState.enterExcludedRegion (cfg : Config) (s : FState α) : Except PyErr (FS
   else
     let s := { s with excluding := true, lastPosition := some s.position }
     .ok (s, match cfg.enteringExcludedRegionGcode with
-            | some l => l.map .script
+            | some l => l.map (.script false)
             | none => [])
 
 /-- `_processPendingCommands()` -/
@@ -260,7 +263,7 @@ def FState.processPendingCommands (cfg : Config) (s : FState α) : FState α × 
     | .args a => Out.merged g a
     | .cmd c => Out.orig c)
   let exit := match cfg.exitingExcludedRegionGcode with
-    | some l => l.map Out.script
+    | some l => l.map (Out.script true)
     | none => []
   ({ s with pendingCommands := [] }, pend ++ exit)
 
